@@ -1676,3 +1676,44 @@ func TestVerif_C17_RateWindow(t *testing.T) {
 		veriflib.Guard("C17", "C17/rate-window", c, func() { propC17Window(t, c) })
 	})
 }
+
+// ---- facet C17/mean-window ----------------------------------------------------------------------------------
+//
+// Readers polling a mean while the last samples of a burst arrive (the TUI and the API poll all the time): whatever a
+// read saw in passing, after the burst the mean is sum over count. Short scripts of add / read operations only, every
+// case executed on fresh objects many times; same reference model and bounds as C17/burst.
+
+var c17MeanCfg = c17GenCfg{
+	kinds:    []string{"add", "add", "mget", "mget", "mget"},
+	objs:     c17LocalObjs,
+	gBuckets: [][2]int{{2, 2}, {3, 4}, {5, 8}}, maxOps: 8, maxPhases: 2, maxKeys: 1, maxRepeat: 4,
+	resets: []string{"mean"},
+}
+
+func propC17MeanWindow(t veriflib.TB, c c17Case) {
+	key := veriflib.JSON(c)
+	c17Journal("C17/mean-window", key)
+	for i := 0; i < c17WindowRepeat(); i++ {
+		c17RunCase(t, "C17/mean-window", newC17Local(), c17LocalObjs, newC17Model(), c)
+	}
+	nt, cl := c17Shape(c)
+	veriflib.Record("C17/mean-window", key, nt, cl, func() any { return c17Sample(c) })
+}
+
+func TestVerif_C17_MeanWindow(t *testing.T) {
+	defer veriflib.Flush()
+	defer c17JournalDone()
+	var rc c17Case
+	if veriflib.ReplayCase("C17/mean-window", &rc) {
+		for i := 0; i < c17ReplayRepeat(); i++ {
+			propC17MeanWindow(t, rc)
+		}
+		return
+	} else if veriflib.Replaying() {
+		t.Skip()
+	}
+	rapid.Check(t, func(t *rapid.T) {
+		c := genC17Case(t, c17MeanCfg)
+		veriflib.Guard("C17", "C17/mean-window", c, func() { propC17MeanWindow(t, c) })
+	})
+}
